@@ -96,7 +96,7 @@ def check_C09(ctx):
 # --------------------------------------------------------------------------- C16
 
 C16_LAWS = ["Utf8Preserved", "NeverLengthens", "FitsUnchanged", "FitsUnchangedWords", "EscapeLeavesNoSpecials", "EscapeOnceIdempotent",
-            "UrlRoundTrip", "StripIsBoth", "CaseLaws", "SizeCountsChars", "SplitJoinInverse", "AppendPrepend",
+            "EscapedIsFixedPoint", "UrlRoundTrip", "StripIsBoth", "CaseLaws", "SizeCountsChars", "SplitJoinInverse", "AppendPrepend",
             "RemoveIsReplaceEmpty"]
 
 
@@ -307,10 +307,11 @@ def check_C20(ctx):
     cases, _ = ctx.tlc_mc("MC_C20", mc_cfg({"FlushPolicy": '"return"'},
                                            ["NeverPanics", "AcceptedIsPrefix", "NoSuccessAfterFault", "FaultReported",
                                             "NoFaultNoError", "Terminates", "EmitCase"], props=["NoCallAfterFault"]))
-    gen = ctx.gen("prognoerr", 40 if ctx.quick else 1500)
+    gen = ctx.gen("prognoerr", 40 if ctx.quick else 1500) + ctx.gen("omni", 60 if ctx.quick else 1500, seed_offset=20000)
     for g in gen:
         g["kind"] = "fault"
         g.pop("strict", None)
+        g.pop("repeat", None)
     obs = ctx.run_cases(cases + gen)
     validate_faults(ctx, obs)
     ctx.exhaustive = False
@@ -674,6 +675,8 @@ def check_C01(ctx):
     for kind in ("fuzztext", "mutants"):
         gen = ctx.gen(kind, n)
         ctx.validate(ctx.run_cases(gen, deadline=30), module="TraceC01", nontrivial_key=lambda o: o.get("text", ""))
+    pairs = ctx.gen("weirdpairs", 45 * 45 * 22)
+    ctx.validate(ctx.run_cases(pairs, deadline=30), module="TraceC01", nontrivial_key=lambda o: o.get("text", ""))
     progs = ctx.gen("prog", 2000 if ctx.quick else 30000)
     for g in progs:
         g["weird"] = True
